@@ -1056,3 +1056,75 @@ package ring
 //@   rowcut forall(k, 0, n, p0.Coeffs[L][k] == cL)
 //@   rowcut forall(k, 0, n, y == MRed(cL + (q - h) + 2*q - ai, rc, q, mc) && y < q && cong(y*W, (cL + (q - h) + 2*q - ai)*rc, q))
 //@   rowpost forall(k, 0, n, y < q && cong(y * qL, ai - cL + half, q)) by cong_neg(h, half, q); cong_shift(0 - h, 0 - half, 1, q); cong_refl(cL - ai, q); cong_add(cL - ai, cL - ai, q - h, 0 - half, q); cong_shift(cL - ai + q - h, cL - ai - half, 2, q); cong_scale(cL + (q - h) + 2*q - ai, cL - ai - half, rc, q); cong_trans(y*W, (cL + (q - h) + 2*q - ai)*rc, (cL - ai - half)*rc, q); cong_scale(y*W, (cL - ai - half)*rc, qL, q); cong_scale(rc*qL, 0 - W, cL - ai - half, q); cong_trans(y*W*qL, (cL - ai - half)*rc*qL, (ai - cL + half)*W, q); cong_cancelW(y*qL, ai - cL + half, mc, (q*mc)/W, q)
+
+// ---- NTT entry points of a SubRing: the transforms themselves are NOT yet under contract (assumed: frame, length and documented output range) ----
+//@ func SubRing.NTT
+//@   property C01
+//@   trusted NTT not yet verified: assumed frame and output range [0, q)
+//@   requires len(p1) >= s.N && len(p2) >= s.N && 0 <= s.N
+//@   assigns p2[0:s.N]
+//@   ensures forall(k, 0, s.N, p2[k] < s.Modulus)
+
+//@ func SubRing.NTTLazy
+//@   property C01
+//@   trusted NTT not yet verified: assumed frame and documented lazy output range [0, 6q-2]
+//@   requires len(p1) >= s.N && len(p2) >= s.N && 0 <= s.N
+//@   assigns p2[0:s.N]
+//@   ensures forall(k, 0, s.N, p2[k] < 6*s.Modulus)
+
+//@ func SubRing.INTT
+//@   property C01
+//@   trusted INTT not yet verified: assumed frame and output range [0, q)
+//@   requires len(p1) >= s.N && len(p2) >= s.N && 0 <= s.N
+//@   assigns p2[0:s.N]
+//@   ensures forall(k, 0, s.N, p2[k] < s.Modulus)
+
+//@ func SubRing.INTTLazy
+//@   property C01
+//@   trusted INTT not yet verified: assumed frame and output range.  Documented range [0, 2q-1].  The standard transform (N >= 16) ends with the fully reducing mulscalarmontgomeryvec, the conjugate-invariant one with MRedLazy(x, NInv) = hi(x*NInv) - H + q where x < 2q, NInv < q: a result >= q then has r - q <= hi(x*NInv) < 2q^2/2^64 <= q/4 for q <= 2^61
+//@   requires len(p1) >= s.N && len(p2) >= s.N && 0 <= s.N
+//@   assigns p2[0:s.N]
+//@   ensures forall(k, 0, s.N, p2[k] < 2*s.Modulus && (p2[k] < s.Modulus || 4*(p2[k] - s.Modulus) < s.Modulus))
+
+// NTT-domain divisions: frame and memory safety only (values need the NTT contracts)
+//@ func Ring.DivRoundByLastModulusNTT
+//@   property C09
+//@   requires 1 <= r.level && r.level < len(r.SubRings) && r.level < len(p0.Coeffs) && r.level <= len(p1.Coeffs) && r.level < len(buff.Coeffs)
+//@   requires r.level <= len(r.RescaleConstants) && r.level <= len(r.RescaleConstants[r.level-1])
+//@   let L = r.level
+//@   let qL = r.SubRings[L].Modulus
+//@   let n = r.SubRings[L].N
+//@   requires 2 < qL && qL < 1<<61 && n % 8 == 0 && 16 <= n
+//@   requires len(p0.Coeffs[L]) == n && len(buff.Coeffs[L]) == n && disjoint(buff.Coeffs[L], p0.Coeffs[L])
+//@   assigns buff.Coeffs[r.level]
+//@   rowloop 0 i 0 r.level out=p1,buff
+//@   let q = r.SubRings[i].Modulus
+//@   let mc = r.SubRings[i].MRedConstant
+//@   let bc = r.SubRings[i].BRedConstant
+//@   let rc = r.RescaleConstants[L-1][i]
+//@   rowpre mredpre(q, mc) && bredpre(q, bc[0], bc[1]) && q < 1<<61 && rc < q && r.SubRings[i].N == n
+//@   rowpre len(p0.Coeffs[i]) == n && len(p1.Coeffs[i]) == n && len(buff.Coeffs[i]) == n
+//@   rowpre sameOrDisjoint(p1.Coeffs[i], p0.Coeffs[i]) && disjoint(p1.Coeffs[i], buff.Coeffs[i]) && disjoint(p1.Coeffs[i], buff.Coeffs[L]) && disjoint(buff.Coeffs[i], buff.Coeffs[L]) && disjoint(buff.Coeffs[i], p0.Coeffs[i])
+//@   rowpre disjoint(r.RescaleConstants[L-1], p1.Coeffs[i]) && disjoint(r.RescaleConstants[L-1], buff.Coeffs[i])
+//@   rowpre forall(k, 0, n, p0.Coeffs[i][k] < q)
+
+//@ func Ring.DivFloorByLastModulusNTT
+//@   property C09
+//@   requires 1 <= r.level && r.level < len(r.SubRings) && r.level < len(p0.Coeffs) && r.level <= len(p1.Coeffs) && 2 <= len(buff.Coeffs)
+//@   requires r.level <= len(r.RescaleConstants) && r.level <= len(r.RescaleConstants[r.level-1])
+//@   let L = r.level
+//@   let qL = r.SubRings[L].Modulus
+//@   let n = r.SubRings[L].N
+//@   requires 2 < qL && qL < 1<<61 && n % 8 == 0 && 16 <= n
+//@   requires len(p0.Coeffs[L]) == n && len(buff.Coeffs[0]) == n && len(buff.Coeffs[1]) == n && disjoint(buff.Coeffs[0], p0.Coeffs[L]) && disjoint(buff.Coeffs[0], buff.Coeffs[1])
+//@   assigns buff.Coeffs[0]
+//@   rowloop 0 i 0 r.level out=p1
+//@   rowassigns buff.Coeffs[1]
+//@   let q = r.SubRings[i].Modulus
+//@   let mc = r.SubRings[i].MRedConstant
+//@   let rc = r.RescaleConstants[L-1][i]
+//@   rowpre mredpre(q, mc) && q < 1<<61 && rc < q && r.SubRings[i].N == n
+//@   rowpre len(p0.Coeffs[i]) == n && len(p1.Coeffs[i]) == n
+//@   rowpre sameOrDisjoint(p1.Coeffs[i], p0.Coeffs[i]) && disjoint(p1.Coeffs[i], buff.Coeffs[0]) && disjoint(p1.Coeffs[i], buff.Coeffs[1]) && disjoint(buff.Coeffs[1], p0.Coeffs[i])
+//@   rowpre disjoint(r.RescaleConstants[L-1], p1.Coeffs[i]) && disjoint(r.RescaleConstants[L-1], buff.Coeffs[1])
+//@   rowpre forall(k, 0, n, p0.Coeffs[i][k] < q)
